@@ -195,6 +195,8 @@ pub fn seeds(w: usize) -> Vec<(String, Vec<u8>)> {
         ("legacy-leaf", Envelope::try_from_cbor_data(vec![0xd8, 0xc8, 0x82, 0xd8, 0x18, 0x61, 0x73, 0xa1, 0xd8, 0x18, 0x61, 0x70, 0xd8, 0xc9, 0x61, 0x6f]).unwrap()),
     ];
     for (n, e) in ex { out.push((n.to_string(), e.to_cbor_data())) }
+    // nodes whose array head sits at a width boundary (24 and 25 elements; 256 elements in the heavier families)
+    for (wn, m) in families::wide() { if (w >= 5 && (wn == "node-23-assertions" || wn == "node-24-assertions")) || (w >= 6 && wn == "node-255-assertions") { if let Some(b) = m.encode() { out.push((wn, b)) } } }
     out
 }
 
